@@ -13,8 +13,10 @@ reason for a `PANIC` answer of the model, under explicit size bounds.
 * **Connection task** (`pollConn_no_fuel_panic`): `pollConn fuel c` does not return
   `"model: connection fuel exhausted"` if `mu c < fuel`, where
   `mu c = 7·|transport input available in this poll| + 5·(bytes buffered in the current parser + 1) + rank ≤ 7·in + 5·buf + 10`
-  (`mu_le`).  With the fuel `runTask` passes (100000) and a parser buffer of ≤ 8 KiB this covers every
-  poll in which at most **8400 bytes** of not-yet-read input are available (`pollConn_100000`).  The bound is
+  (`mu_le`).  `runTask` passes `connFuel c = 100000 + 7·|input| + 5·|buffered|`, which satisfies the bound
+  for EVERY well-formed configuration: `pollConn_connFuel`, `run_panics_are_code_panics` — no side condition
+  on sizes.  (With the constant part alone — `pollConn_100000` — what is covered is every poll in which at
+  most 8400 bytes of not-yet-read input are available and ≤ 8 KiB are buffered.)  The bound is
   per poll (the peer releases input segment by segment) and only the bytes read by `parse_request`
   count twice; bytes read by the handler are paid by the handler's own fuel.  Cost per step: two
   phase transitions per `read` that returns data while a preamble is parsed (`reading → writing →
@@ -68,6 +70,14 @@ theorem pollConn_100000 (c : Conn) (hwf : ConnWF c) (hin : c.env.tr.input.length
     (hbuf : bufLen c.phase ≤ 8192) :
     (pollConn 100000 c).2 ≠ .panic "model: connection fuel exhausted" :=
   pollConn_no_fuel_panic 100000 c hwf (by omega)
+
+theorem bufLen_eq (ph : Phase) : bufLen ph = ph.buffered := by cases ph <;> rfl
+
+/-- **With the fuel `runTask` passes** (`connFuel c`, computed from the configuration it polls) the
+connection fuel guard is never hit — no side condition on the amount of input or buffered bytes. -/
+theorem pollConn_connFuel (c : Conn) (hwf : ConnWF c) :
+    (pollConn (connFuel c) c).2 ≠ .panic "model: connection fuel exhausted" :=
+  pollConn_no_fuel_panic (connFuel c) c hwf (by rw [bufLen_eq]; unfold connFuel; omega)
 
 /-- A connection that starts in `parse_request` with a fresh request parser is well formed. -/
 theorem connWF_new (b mc : Nat) (env : Env) (scripts : List (List HOp × Bool)) (stop : Bool) :
@@ -300,6 +310,26 @@ theorem model_panics_are_code_panics (c : Conn) (hwf : ConnWF c)
   rcases pollConn_panic_cases _ _ h with h1 | h1 | h1
   · exfalso
     have := pollConn_no_fuel_panic 100000 c hwf hsize
+    rw [h, h1] at this
+    exact this rfl
+  · exact Or.inl h1
+  · refine Or.inr ⟨h1, h1.not_fuel, h1.not_unreachable, ?_⟩
+    rcases h1 with h2 | h2
+    · simp only [asyncPanicSites, List.mem_cons, List.not_mem_nil, or_false] at h2
+      rcases h2 with rfl | rfl | rfl | rfl | rfl | rfl | rfl | rfl | rfl | rfl | rfl | rfl | rfl | rfl <;> decide
+    · simp only [strPanicSites, List.mem_cons, List.not_mem_nil, or_false] at h2
+      rcases h2 with rfl | rfl | rfl | rfl | rfl <;> decide
+
+/-- **`model_panics_are_code_panics` for the poll `runTask` makes**, unconditionally: a `PANIC` of a
+poll with the fuel `connFuel c` is the handler fuel guard or a real panic site of the crate. -/
+theorem run_panics_are_code_panics (c : Conn) (hwf : ConnWF c)
+    {c' : Conn} {s : String} (h : pollConn (connFuel c) c = (c', .panic s)) :
+    s = "model: handler fuel exhausted" ∨
+      (RealSite s ∧ s ∉ fuelMsgs ∧ s ≠ "model: unreachable close state" ∧
+        s ≠ "model: drive loop made no progress") := by
+  rcases pollConn_panic_cases _ _ h with h1 | h1 | h1
+  · exfalso
+    have := pollConn_connFuel c hwf
     rw [h, h1] at this
     exact this rfl
   · exact Or.inl h1
